@@ -7,7 +7,15 @@ package main
 // immediate outcome), raw requests over TCP, a follow-up request on the same connection.
 //
 //   brokerhttp req <raw request x-hex> <twin none|client|proxy|answer> <twin body x-hex> <nat header x-hex>
-//   -> status=<n> body=x<hex> reuse=<ok|closed|bad:<n>> ms=<n> ipc=<ok|bad|internal|other|-> resp=x<hex> dec=<none|x<answer>:x<error>>
+//   -> status=<n> body=x<hex> reuse=<ok|closed|bad:<n>> ms=<n> ipc=<ok|bad|internal|other|-> resp=x<hex> dec=<none|x<answer>:x<error>> cors=<0|1> nat=x<hex>|!
+//      (cors: Access-Control-Allow-Origin "*" present; nat: r.Header.Get("Snowflake-NAT-Type") of the request as net/http parses it)
+//   brokerhttp direct <amp|metrics> <method x> <urlpath x> <body x> <metrics n|x..> <twin none|client> <twin body x>
+//   -> status=<n> body=x<hex> cors=<0|1> ipc=.. resp=.. dec=..   (the handler called in-package: a URL.Path the mux does not let through / another metrics file)
+//   brokerhttp debugview <ptype:nat,...|->      -> x<hex of GET /debug on a broker with exactly these registered proxies>
+//   brokerhttp hdrget <k:v,...|-> <key x>       -> x<hex of Header.Get(key) of a request with these header lines>
+//   brokerhttp seq <event;event;...>            -> one result per event, on a fresh broker and server, strictly one after the other
+//       P:<sid x>:<ptype x>:<nat x>   a proxy poll over TCP left waiting (it answers "ANS:"+offer when matched); result P=ok once registered
+//       R:<raw request x>             result R=<status>,<cors>,x<body (armor-decoded for /amp/client/)>  or R=noresponse
 
 import (
 	"bufio"
@@ -29,10 +37,11 @@ import (
 
 	"git.torproject.org/pluggable-transports/snowflake.git/v2/common/amp"
 	"git.torproject.org/pluggable-transports/snowflake.git/v2/common/messages"
+	"git.torproject.org/pluggable-transports/snowflake.git/v2/zz_verif/wire"
 	"github.com/prometheus/client_golang/prometheus/promhttp"
 )
 
-func vhMux(ctx *BrokerContext) *http.ServeMux {
+func vhMux(ctx *BrokerContext, metricsFile string) *http.ServeMux {
 	i := &IPC{ctx}
 	mux := http.NewServeMux()
 	mux.HandleFunc("/robots.txt", robotsTxtHandler)
@@ -40,13 +49,20 @@ func vhMux(ctx *BrokerContext) *http.ServeMux {
 	mux.Handle("/client", SnowflakeHandler{i, clientOffers})
 	mux.Handle("/answer", SnowflakeHandler{i, proxyAnswers})
 	mux.Handle("/debug", SnowflakeHandler{i, debugHandler})
-	mux.Handle("/metrics", MetricsHandler{"", metricsHandler})
+	mux.Handle("/metrics", MetricsHandler{metricsFile, metricsHandler})
 	mux.Handle("/prometheus", promhttp.HandlerFor(ctx.metrics.promMetrics.registry, promhttp.HandlerOpts{}))
 	mux.Handle("/amp/client/", SnowflakeHandler{i, ampClientOffers})
 	return mux
 }
 
 func vhHex(s string) []byte {
+	if strings.HasPrefix(s, "g") {
+		b, err := wire.Payload(s)
+		if err != nil {
+			panic(err)
+		}
+		return b
+	}
 	b, err := hex.DecodeString(strings.TrimPrefix(s, "x"))
 	if err != nil {
 		panic(err)
@@ -91,6 +107,10 @@ func vhOne(addr string, i *IPC, args []string) string {
 	}
 	resp, err := http.ReadResponse(br, &http.Request{Method: method})
 	status, body, reuse := 0, []byte(nil), "closed"
+	cors := "0"
+	if err == nil && resp.Header.Get("Access-Control-Allow-Origin") == "*" {
+		cors = "1"
+	}
 	if err != nil {
 		reuse = "noresponse"
 		atomic.AddInt32(&vhNoResponse, 1)
@@ -120,7 +140,7 @@ func vhOne(addr string, i *IPC, args []string) string {
 		}
 	}
 	ms := time.Since(start).Milliseconds()
-	if status == 200 && strings.Contains(string(raw[:min(len(raw), 40)]), "/amp/client/") {
+	if status == 200 && len(body) > 0 && strings.Contains(string(raw[:min(len(raw), 40)]), "/amp/client/") {
 		if dec, err := amp.NewArmorDecoder(bytes.NewReader(body)); err == nil {
 			if d, err := io.ReadAll(dec); err == nil {
 				body = d
@@ -171,7 +191,209 @@ func vhOne(addr string, i *IPC, args []string) string {
 	if len(body) > 4096 {
 		body = body[:4096]
 	}
-	return fmt.Sprintf("status=%d body=x%s reuse=%s ms=%d ipc=%s resp=%s dec=%s", status, hex.EncodeToString(body), reuse, ms, ipc, respHex, dec)
+	nat := "!"
+	if rq, err := http.ReadRequest(bufio.NewReader(bytes.NewReader(raw))); err == nil {
+		nat = "x" + hex.EncodeToString([]byte(rq.Header.Get("Snowflake-NAT-Type")))
+	}
+	return fmt.Sprintf("status=%d body=x%s reuse=%s ms=%d ipc=%s resp=%s dec=%s cors=%s nat=%s", status, hex.EncodeToString(body), reuse, ms, ipc, respHex, dec, cors, nat)
+}
+
+func vhArmorDecode(body []byte) []byte {
+	if dec, err := amp.NewArmorDecoder(bytes.NewReader(body)); err == nil {
+		if d, err := io.ReadAll(dec); err == nil {
+			return d
+		}
+	}
+	return []byte("!armor")
+}
+
+// the IPC outcome of the twin body, as in vhOne (immediate outcomes only)
+func vhTwin(i *IPC, kind string, twin []byte) (ipc, respHex, dec string) {
+	ipc, respHex, dec = "-", "x", "none"
+	if kind != "client" {
+		return
+	}
+	var response []byte
+	err := i.ClientOffers(messages.Arg{Body: twin, RemoteAddr: ""}, &response)
+	ipc = vhIpcClass(err)
+	if err == nil {
+		respHex = "x" + hex.EncodeToString(response)
+		if r, derr := messages.DecodeClientPollResponse(response); derr == nil {
+			dec = "x" + hex.EncodeToString([]byte(r.Answer)) + ":x" + hex.EncodeToString([]byte(r.Error))
+		}
+	}
+	return
+}
+
+var vhTmpDir string
+
+func vhDirect(i *IPC, args []string) string {
+	if len(args) < 8 {
+		return "!badcase"
+	}
+	method, path, body := string(vhHex(args[2])), string(vhHex(args[3])), vhHex(args[4])
+	w := httptest.NewRecorder()
+	r, err := http.NewRequest(method, "http://broker.example/", bytes.NewReader(body))
+	if err != nil {
+		return "!badcase"
+	}
+	r.URL.Path = path
+	switch args[1] {
+	case "amp":
+		SnowflakeHandler{i, ampClientOffers}.ServeHTTP(w, r)
+	case "metrics":
+		name := ""
+		if args[5] != "n" {
+			f, err := os.CreateTemp(vhTmpDir, "metrics")
+			if err != nil {
+				return "!tmp"
+			}
+			f.Write(vhHex(args[5]))
+			f.Close()
+			defer os.Remove(f.Name())
+			name = f.Name()
+		}
+		MetricsHandler{name, metricsHandler}.ServeHTTP(w, r)
+	default:
+		return "!badcase"
+	}
+	out := w.Body.Bytes()
+	if args[1] == "amp" && w.Code == 200 && len(out) > 0 {
+		out = vhArmorDecode(out)
+	}
+	cors := "0"
+	if w.Header().Get("Access-Control-Allow-Origin") == "*" {
+		cors = "1"
+	}
+	ipc, respHex, dec := vhTwin(i, args[6], vhHex(args[7]))
+	return fmt.Sprintf("status=%d body=x%s cors=%s ipc=%s resp=%s dec=%s", w.Code, hex.EncodeToString(out), cors, ipc, respHex, dec)
+}
+
+func vhKVs(tok string) [][2]string {
+	var out [][2]string
+	if tok == "-" || tok == "" {
+		return out
+	}
+	for _, it := range strings.Split(tok, ",") {
+		kv := strings.SplitN(it, ":", 2)
+		if len(kv) != 2 {
+			panic("bad k:v list")
+		}
+		out = append(out, [2]string{string(vhHex(kv[0])), string(vhHex(kv[1]))})
+	}
+	return out
+}
+
+func vhDebugView(args []string) string {
+	ctx := NewBrokerContext(log.New(io.Discard, "", 0))
+	for k, kv := range vhKVs(args[1]) {
+		ctx.AddSnowflake(fmt.Sprintf("sid-%d", k), kv[0], kv[1], 0)
+	}
+	w := httptest.NewRecorder()
+	SnowflakeHandler{&IPC{ctx}, debugHandler}.ServeHTTP(w, httptest.NewRequest("GET", "http://broker.example/debug", nil))
+	if w.Code != 200 {
+		return fmt.Sprintf("!status%d", w.Code)
+	}
+	return "x" + hex.EncodeToString(w.Body.Bytes())
+}
+
+func vhHdrGet(args []string) string {
+	var b bytes.Buffer
+	b.WriteString("GET / HTTP/1.1\r\nHost: x\r\n")
+	for _, kv := range vhKVs(args[1]) {
+		b.WriteString(kv[0] + ":" + kv[1] + "\r\n")
+	}
+	b.WriteString("\r\n")
+	rq, err := http.ReadRequest(bufio.NewReader(&b))
+	if err != nil {
+		return "!parse"
+	}
+	return "x" + hex.EncodeToString([]byte(rq.Header.Get(string(vhHex(args[2])))))
+}
+
+// one raw request on a fresh connection -> status, cors, body
+func vhRaw(addr string, raw []byte) string {
+	conn, err := net.DialTimeout("tcp", addr, 5*time.Second)
+	if err != nil {
+		return "R=noresponse"
+	}
+	defer conn.Close()
+	conn.SetDeadline(time.Now().Add(15 * time.Second))
+	go func() { conn.Write(raw) }()
+	method := "GET"
+	if sp := bytes.IndexByte(raw, ' '); sp > 0 {
+		method = string(raw[:sp])
+	}
+	resp, err := http.ReadResponse(bufio.NewReader(conn), &http.Request{Method: method})
+	if err != nil {
+		return "R=noresponse"
+	}
+	body, err := io.ReadAll(resp.Body)
+	resp.Body.Close()
+	if err != nil {
+		return "R=noresponse"
+	}
+	if resp.StatusCode == 200 && len(body) > 0 && bytes.Contains(raw[:min(len(raw), 40)], []byte("/amp/client/")) {
+		body = vhArmorDecode(body)
+	}
+	cors := "0"
+	if resp.Header.Get("Access-Control-Allow-Origin") == "*" {
+		cors = "1"
+	}
+	if len(body) > 8192 {
+		body = body[:8192]
+	}
+	return fmt.Sprintf("R=%d,%s,x%s", resp.StatusCode, cors, hex.EncodeToString(body))
+}
+
+func vhSeq(args []string, metricsFile string) string {
+	ctx := NewBrokerContext(log.New(io.Discard, "", 0))
+	go ctx.Broker()
+	srv := httptest.NewUnstartedServer(vhMux(ctx, metricsFile))
+	srv.Config.ErrorLog = log.New(io.Discard, "", 0)
+	srv.Start()
+	// not closed: proxy polls left waiting end with the process (Close would wait for them)
+	addr := srv.Listener.Addr().String()
+	var out []string
+	for _, ev := range strings.Split(args[1], ";") {
+		f := strings.Split(ev, ":")
+		switch {
+		case f[0] == "P" && len(f) == 4:
+			sid := string(vhHex(f[1]))
+			body, _ := messages.EncodeProxyPollRequest(sid, string(vhHex(f[2])), string(vhHex(f[3])), 0)
+			go func() {
+				resp, err := http.Post("http://"+addr+"/proxy", "application/json", bytes.NewReader(body))
+				if err != nil {
+					return
+				}
+				b, _ := io.ReadAll(resp.Body)
+				resp.Body.Close()
+				if offer, _, _, derr := messages.DecodePollResponseWithRelayURL(b); derr == nil && offer != "" {
+					ab, _ := messages.EncodeAnswerRequest("ANS:"+offer, sid)
+					if r2, err := http.Post("http://"+addr+"/answer", "application/json", bytes.NewReader(ab)); err == nil {
+						io.Copy(io.Discard, r2.Body)
+						r2.Body.Close()
+					}
+				}
+			}()
+			res := "P=timeout"
+			for deadline := time.Now().Add(10 * time.Second); time.Now().Before(deadline); time.Sleep(200 * time.Microsecond) {
+				ctx.snowflakeLock.Lock()
+				_, ok := ctx.idToSnowflake[sid]
+				ctx.snowflakeLock.Unlock()
+				if ok {
+					res = "P=ok"
+					break
+				}
+			}
+			out = append(out, res)
+		case f[0] == "R" && len(f) == 2:
+			out = append(out, vhRaw(addr, vhHex(f[1])))
+		default:
+			out = append(out, "!badevent")
+		}
+	}
+	return strings.Join(out, ";")
 }
 
 func min(a, b int) int {
@@ -194,7 +416,16 @@ func TestVerifHttpDriver(t *testing.T) {
 		t.Fatal(err)
 	}
 	go ctx.Broker()
-	srv := httptest.NewUnstartedServer(vhMux(ctx))
+	tmp, err := os.MkdirTemp(os.Getenv("VERIF_TMP_DIR"), "c14http")
+	if err != nil {
+		t.Fatal(err)
+	}
+	vhTmpDir = tmp
+	metricsFile := tmp + "/metrics.log"
+	if err := os.WriteFile(metricsFile, []byte(vhMetricsContent), 0644); err != nil {
+		t.Fatal(err)
+	}
+	srv := httptest.NewUnstartedServer(vhMux(ctx, metricsFile))
 	srv.Config.ErrorLog = log.New(io.Discard, "", 0)
 	srv.Start()
 	defer srv.Close()
@@ -221,7 +452,19 @@ func TestVerifHttpDriver(t *testing.T) {
 					res[idx] = "!panic " + strings.ReplaceAll(fmt.Sprint(r), "\n", " ")
 				}
 			}()
-			res[idx] = vhOne(addr, i, strings.Split(line, " ")[1:])
+			a := strings.Split(line, " ")[1:]
+			switch a[0] {
+			case "direct":
+				res[idx] = vhDirect(i, a)
+			case "debugview":
+				res[idx] = vhDebugView(a)
+			case "hdrget":
+				res[idx] = vhHdrGet(a)
+			case "seq":
+				res[idx] = vhSeq(a, metricsFile)
+			default:
+				res[idx] = vhOne(addr, i, a)
+			}
 		}()
 	}
 	wg.Wait()
@@ -239,5 +482,9 @@ func TestVerifHttpDriver(t *testing.T) {
 		w.WriteString(r + " srv=" + alive + "\n")
 	}
 	w.Flush()
+	os.RemoveAll(tmp)
 	os.Exit(0)
 }
+
+// what GET /metrics of the driver's server shows (the metrics log is written by the broker once a day: fixed here)
+const vhMetricsContent = "snowflake-stats-end 2026-01-01 00:00:00 (86400 s)\nsnowflake-ips \nsnowflake-idle-count 0\n"
